@@ -148,7 +148,9 @@ def _meta_chunk(job):
         atoms = [Atomic(i_, 0) for i_ in range(3)]; perm = atoms[:]; rnd.shuffle(perm)
         amap = dict(zip(atoms, [Atomic(p.index, 2) for p in perm]))
         consts = [Constant(i_, 0) for i_ in range(3)]; permc = consts[:]; rnd.shuffle(permc)
-        cmap = dict(zip(consts, [Constant(p.index, 1) for p in permc]))
+        # codomain mixes indexes and subscripts (d, a1, d1, ... sort differently by (index, subscript) and (subscript, index))
+        pool = [Constant(i_, j_) for j_ in range(3) for i_ in range(4)]
+        cmap = dict(zip(consts, rnd.sample(pool, 3)))
         F, G = Predicate(0, 0, 1), Predicate(1, 0, 2)
         pmap_ = {F: Predicate(2, 1, 1), G: Predicate(0, 3, 2)}
         vmap = {Variable(0, 0): Variable(2, 1)}
@@ -186,10 +188,18 @@ def run(ctx):
     reflexivity_pairs(ctx)
     logic_setter_obligation(ctx)
     closing_apply_obligation(ctx)
+    # symbol-independent search: the witness constant / world the branch hands out is new whatever symbols are on it
+    from checks import c06
+    c06.append_obligations(ctx, 'C10.fresh', only=('fresh-constant', 'fresh-world'))
+    ctx.replayers['C10.fresh.'] = c06.replay_history
+    c06.bounded_histories(ctx, 'C10.fresh', depth=3)
     bounded_meta(ctx)
     ctx.replayers['C10.'] = lambda r: dict(reproduced=None, detail='see counterexample / meta')
 
 def replay(payload):
+    if payload.get('kind') == 'bounded' and 'history' in (payload.get('input') or {}):
+        from checks import c06
+        return c06.replay(payload)
     if payload.get('kind') == 'bounded':
         from pytableaux.lang import Argument
         from bounded import prover as P
